@@ -100,3 +100,41 @@ Proof.
     apply Z.mod_small. destruct (ibool T); lia.
 Qed.
 
+
+(* ------------------------------------------------------------------ the store inside an object *)
+
+Theorem store_at_frame T v off mem : wf_ity T -> (off + isize T <= List.length mem)%nat ->
+  let r := store_at T v off mem in
+  List.length (snd r) = List.length mem /\
+  (forall j d, (j < off \/ off + isize T <= j)%nat -> nth j (snd r) d = nth j mem d) /\
+  (if in_range T v then fst r = Ok tt /\ unit_at off (isize T) (snd r) = encode_int T v
+   else r = (Err OverflowError, mem)).
+Proof.
+  intros Hwf Hlen. cbv zeta. unfold store_at. rewrite store_exact by exact Hwf.
+  destruct (in_range T v); cbn [fst snd].
+  - assert (List.length (encode_int T v) = isize T) as L by apply write_raw_length.
+    repeat split.
+    + apply splice_length. lia.
+    + intros j d Hj. apply nth_splice_outside; lia.
+    + rewrite <- L at 1. apply unit_at_splice. lia.
+  - rewrite splice_same by exact Hlen. repeat split; reflexivity.
+Qed.
+
+(* what a reader of the location (C code or cffi) gets after an accepted store *)
+Corollary store_received T v data bs : wf_ity T ->
+  convert_from_object_int T v data = (Ok tt, bs) -> read_int T bs = v /\ in_range T v = true.
+Proof.
+  intros Hwf E. rewrite store_exact in E by exact Hwf.
+  destruct (in_range T v) eqn:R; [|discriminate]. injection E as <-.
+  split; [apply read_encode; assumption|reflexivity].
+Qed.
+
+(* non-int objects: floats and objects without __int__ are refused with TypeError (target
+   unchanged); an object with __int__ behaves exactly like the int it returns *)
+Theorem store_obj_exact T o data : wf_ity T ->
+  store_obj T o data =
+  match o with
+  | PInt v | PIntLike v => if in_range T v then (Ok tt, encode_int T v) else (Err OverflowError, data)
+  | PFloat | PNoInt => (Err TypeError, data)
+  end.
+Proof. intros Hwf. destruct o; cbn [store_obj]; try reflexivity; apply store_exact; exact Hwf. Qed.
